@@ -58,7 +58,10 @@ theorem tdUs_forwardDay : tdUs forwardDayDelta = 86400000000 := by decide
 theorem tdUs_forwardWeekday : tdUs forwardWeekdayDelta = 86400000000 := by decide
 
 theorem stop_eq (t w : Int) : forwardWeekdayStop (fieldsOf t) w = (weekdayOf t == w) := by
-  simp [forwardWeekdayStop, fieldsOf]
+  have hf : (fieldsOf t).weekday = weekdayOf t := rfl
+  unfold forwardWeekdayStop
+  rw [hf]      -- closes the goal outright when the exit test is written `t.weekday() == weekday`
+  all_goals (by_cases h : weekdayOf t = w <;> simp [h, bne])
 
 /-- closed form of `forward_weekday`: the first day strictly after `t`'s day that is weekday `w` -/
 theorem forwardWeekday_spec (t w : Int) (h0 : 0 ≤ w) (h6 : w ≤ 6) :
